@@ -216,6 +216,7 @@ CHECKS["C06"] = {
     "parts": [
         {"engine": "P", "pkg": "internal/upstream/transport", "tests": [
             {"run": "TestVfC06Reuse", "quick": 2400, "thorough": 100000, "shards_quick": 16, "shards_thorough": 16, "args": ["-rapid.steps", "40"], "timeout_thorough": 3400},
+            {"run": "TestVfC06RespTimeout", "quick": 16, "thorough": 320, "shards_quick": 16, "shards_thorough": 16, "shrinktime": "30s"},
         ]},
     ],
     "assumptions": ["the fake server sends exactly one reply per query, echoing the query's ID"],
@@ -374,6 +375,9 @@ CHECKS["C18"] = {
     "parts": [
         {"engine": "P", "pkg": "internal/upstream", "race": True, "tests": [
             {"run": "TestVfC18UpstreamClose", "quick": 240, "thorough": 8000, "shards_quick": 8, "shards_thorough": 16, "timeout_thorough": 3400, "shrinktime": "10s"},
+        ]},
+        {"engine": "P", "pkg": "app/router", "tests": [
+            {"run": "TestVfC18RunReleases", "quick": 240, "thorough": 6000, "shards_quick": 8, "shards_thorough": 16, "shrinktime": "10s"},
         ]},
         {"engine": "E", "proxy": ["plain"], "tests": [
             {"run": "TestVfC18Startup", "quick": 120, "thorough": 3000, "shards_quick": 4, "shards_thorough": 8},
